@@ -399,37 +399,68 @@ def replay_xyz(model):
 
 
 def task_xyz(ctx):
-    """R3 at every crash point of one loop iteration: frames on disk with a label above the visible checkpoint must not
-    survive into the resumed run.  XYZWriter.open (resume) is the only place that could discard them."""
+    """R3 for the XYZ stream: when a run resumes from checkpoint c, XYZWriter.open leaves on disk exactly the complete frames whose
+    label does not exceed c (frames written after the checkpoint, and a frame cut short by the crash, are discarded), and then
+    appends.  Ghost file: three complete one-atom frames with symbolic increasing labels, optionally followed by a frame whose
+    last line is incomplete."""
     fn = ctx.under_contract(MD + ":XYZWriter.open")
-    c = integer("c")
-
-    def thunk():
-        from seqm.MolecularDynamics import XYZWriter, OutputConfig
-
-        assume(c >= 1)
-        disk = G.GhostDisk()
-        W.sys.modules[MD].__dict__["open"] = disk.open_fn()
-        w = XYZWriter(OutputConfig(molid=[0], prefix="md"), c)
-        w.open()
-        return disk
-
     try:
-        ex = ctx.explore(thunk, stubs={MD + ":_rotate_existing": lambda *a, **k: None}, name="XYZWriter.open(resume)")
-    finally:
-        W.sys.modules[MD].__dict__.pop("open", None)
-    for p in ex.paths:
-        disk = p.value
-        opens = [e for e in disk.events if e["kind"] == "textopen"]
-        truncating_or_filtering = any("w" in e["mode"] for e in opens) or any(e["kind"] in ("texttruncate", "textrewrite") for e in disk.events)
-        # crash point witness: iteration k with xyz due at k+1 and no checkpoint at k+1, crash right after the frame is written
-        if truncating_or_filtering:
-            ctx.ok("resume.stale-frames-above-the-checkpoint-are-discarded@p%d" % p.path_id, "ghost-disk")
-        else:
-            ctx.fail("resume.stale-frames-above-the-checkpoint-are-discarded@p%d" % p.path_id,
-                     "XYZWriter.open on resume opens %r without discarding frames with label > step_offset: a crash after an XYZ write and before the next checkpoint leaves those frames, the resumed run appends them again" % [e["mode"] for e in opens],
-                     replay=replay_xyz({}), witness_class="xyz-append-without-truncation-on-resume", backend="ghost-disk")
-    ctx.assume_note("A3: a text file opened with 'a+' keeps its previous content")
+        ctx.under_contract(MD + ":_drop_xyz_frames_after")
+    except Exception:  # absent on a tree without the repair: the clause below then fails by itself
+        pass
+    c = integer("c")
+    labels = [integer("label1"), integer("label2"), integer("label3")]
+
+    for partial in (False, True):
+        def thunk():
+            from seqm.MolecularDynamics import XYZWriter, OutputConfig
+
+            assume(c >= 1)
+            assume((labels[0] >= 0) & (labels[0] < labels[1]) & (labels[1] < labels[2]))
+            disk = G.GhostDisk()
+            lines = []
+            for l in labels:
+                lines += ["1\n", "step: %s  E_total = -1.000000000  \n" % format(l, ""), "H         0.00000         0.00000         0.74000\n"]
+            if partial:
+                lines += ["1\n", "step: %s  E_total = -1.000000000  \n" % format(labels[2] + 1, ""), "H         0.00000   "]
+            disk.text_content["md.0.xyz"] = lines
+            disk.exists.add("md.0.xyz")
+            W.sys.modules[MD].__dict__["open"] = disk.open_fn()
+            W.sys.modules[MD].__dict__["os"] = disk.os_module()
+            w = XYZWriter(OutputConfig(molid=[0], prefix="md"), c)
+            w.open()
+            return disk
+
+        import os as real_os
+        try:
+            ex = ctx.explore(thunk, stubs={MD + ":_rotate_existing": lambda *a, **k: None}, name="XYZWriter.open(resume)")
+        finally:
+            W.sys.modules[MD].__dict__.pop("open", None)
+            W.sys.modules[MD].__dict__["os"] = real_os
+        tag = "resume[partial-last-frame=%s]" % partial
+        if not ex.paths:
+            ctx.error(tag + ".paths", "no path")
+        for p in ex.paths:
+            if p.raised is not None:
+                ctx.fail("%s.raises@p%d" % (tag, p.path_id), repr(p.raised) + p.notes.get("traceback", "")[-600:])
+                continue
+            disk = p.value
+            kept = disk.text_content["md.0.xyz"]
+            opens = [e for e in disk.events if e["kind"] == "textopen"]
+            whole = len(kept) % 3 == 0 and all(kept[3 * j] == "1\n" and kept[3 * j + 2].endswith("\n") for j in range(len(kept) // 3))
+            nk = len(kept) // 3
+            name = "%s.stale-frames-above-the-checkpoint-are-discarded@p%d" % (tag, p.path_id)
+            if not whole:
+                ctx.fail(name, "the file is left with an incomplete frame: %r" % kept[-3:], replay=replay_xyz({}), witness_class="xyz-append-without-truncation-on-resume", backend="ghost-disk")
+                continue
+            # exactly the frames with label <= c survive
+            conds = [labels[j] <= c for j in range(min(nk, 3))] + ([labels[nk] > c] if nk < 3 else [])
+            if nk > 3:
+                conds.append(S(False))
+            goal = E.and_(*[x.n for x in conds]) if conds else E.TRUE
+            ctx.prove(name, goal, pc=p.pc, replay=lambda m: replay_xyz({}), classify=lambda m_, r: "xyz-append-without-truncation-on-resume")
+            ctx.prove("%s.file-is-then-opened-for-appending@p%d" % (tag, p.path_id), E.const(bool(opens) and "a" in opens[-1]["mode"]))
+    ctx.assume_note("A3: a text file opened with 'a+' keeps its content and appends; ghost file of three complete frames (+ optional partial frame), labels and checkpoint step symbolic")
 
 
 def task_rng(ctx):
